@@ -27,3 +27,14 @@ def family_slices(fn, total, per, tier, seed, parts=3, **kw):
     if tier == "quick":
         js = [j for i, j in enumerate(js) if i % parts == seed % parts]
     return js
+
+
+def positions(base, budget=40000):
+    """insertion positions of a base history: all of them, or - for a long history, where one run costs about the square
+    of its length (every expression evaluation converts the whole recorded state) - an evenly spread selection
+    (always including the first and the last position); 40 operations: 25 positions, 77 operations: 6"""
+    n = len(base)
+    cap = max(4, int(budget // max(1, n * n)))
+    if n <= cap:
+        return list(range(1, n + 1))
+    return sorted(set([1, n] + [1 + (i * (n - 1)) // (cap - 1) for i in range(cap)]))
